@@ -19,3 +19,10 @@ prop("C08",
      rule="exhaustive: every tuple over {'-','\\\\','a',0x00,0xff} (quick: arity1 len<=3, arity2 len<=2, arity3/4 len<=1; thorough: arity1 len<=5, arity2 len<=3, arity3 len<=2, arity4 len<=1) -> key bytes compared with the model and checked for collisions on the implementation; seeded random long tuples; seeded pairs (equal / boundary-shifted / mutated) driven through GetDatum, ExpireDatum, RemoveDatum on a real Metric. Non-trivial = distinct case payloads (all cases exercise the encoder; duplicates are not counted).",
      assumptions=["Go map semantics (lookup/insert/delete by string key) modelled as an association list",
                   "strings.ReplaceAll with a one-byte pattern is modelled as a per-byte substitution"])
+
+prop("C15",
+     gens=["Reader"],
+     level_text="Proof: the model of LineReader (buf/off state, the index-based send loop with the absolute-index CR test exactly as written, Finish) is proved to deliver, for every byte stream and every chunking into reads, exactly the stream split at newlines with one trailing CR removed plus the non-empty unterminated remainder (framing_chunk_independent; no bound on lengths). Delimiter, CR byte, CR test and skip widths are regenerated from the Go source. Tie: a real LineReader fed by a scripted io.Reader is compared with the model on all streams over {\\n,\\r,a} (and multi-byte fragments) in all compositions into reads with buffer sizes 1-4, plus long random streams.",
+     level_note="Trusted: Lean kernel; extractor; harness diff. Not modelled: Go slice capacity/aliasing inside ReadAndSend (exercised by buffer sizes 1-4 in the correspondence), the stale-read timer, the expvar counter.",
+     rule="exhaustive: all strings over {\\n,\\r,a} up to length 5 (thorough 8) and over {\\n,\\r,a,0xC3,0xA9} up to 4 (thorough 6) x all compositions into chunks, buffer size cycling 1..4, EOF-with-last-read alternating; seeded random streams up to 1500 bytes with random chunking and zero-length reads. Non-trivial = distinct cases whose stream contains at least one newline.",
+     assumptions=["each Read result is one chunk; a chunk larger than the offered buffer is continued on the next Read"])
